@@ -822,7 +822,10 @@ func (l *Loader) mergeResult(fetchItem *FetchItem, res *result, items []*astjson
 			l.skipValueCompletion = true
 		}
 
-		// no data
+		// no data: errors only. What depends on this fetch has nothing to be fetched with.
+		if hasErrors {
+			l.recordErroredFetchIDLocked(fetchItem)
+		}
 		return nil
 	}
 
@@ -1377,6 +1380,9 @@ func (l *Loader) renderErrorsFailedDeps(fetchItem *FetchItem, res *result) error
 }
 
 func (l *Loader) renderErrorsFailedToFetch(fetchItem *FetchItem, res *result, reason string) error {
+	// the fetch failed as a whole, however that was found out: what depends on it is not fetched
+	// (mergeResult runs with the data lock held)
+	l.recordErroredFetchIDLocked(fetchItem)
 	l.recordSubgraphError(res, res.err, NewSubgraphError(res.ds, fetchItem.ResponsePath, reason, res.statusCode))
 	errorObject, err := astjson.ParseWithArena(l.jsonArena, l.renderSubgraphBaseError(res.ds, fetchItem.ResponsePath, reason))
 	if err != nil {
@@ -1397,6 +1403,8 @@ func (l *Loader) renderErrorsStatusFallback(fetchItem *FetchItem, res *result, s
 		reason += ": " + statusText
 	}
 
+	// as in renderErrorsFailedToFetch
+	l.recordErroredFetchIDLocked(fetchItem)
 	l.recordSubgraphError(res, res.err, NewSubgraphError(res.ds, fetchItem.ResponsePath, reason, res.statusCode))
 
 	errorObject, err := astjson.ParseWithArena(l.jsonArena, fmt.Sprintf(`{"message":"%s"}`, reason))
